@@ -1363,10 +1363,19 @@ class PrepareAst:
                 return out.CodeBlock(result)
             elif isinstance(inp.ctx, ast.Load):
                 elts = [cast(out.Expression, self.apply(elt)) for elt in inp.elts]
-                return out.Value(
-                    tuple([elt.result() for elt in elts]),
-                    cast(list[out.Statement], elts),
-                )
+
+                value = []
+                bound = []
+
+                for elt in elts:
+                    if isinstance(elt, out.StarredValue):
+                        value.extend(elt.result())
+                        bound.extend(elt.bound_statements())
+                    else:
+                        value.append(elt.result())
+                        bound.append(elt)
+
+                return out.Value(tuple(value), cast(list[out.Statement], bound))
 
             raise AssertionError(f"invalid context {inp.ctx}")
 
